@@ -36,6 +36,10 @@ CLAIMS = {
   "For every answer list (hence every force field behind the trait, stateful or NaN-answering ones included), every start, step length and budget, over an arbitrary scalar: the passes form a Walk — each gradient request is at the previous geometry moved against the previous gradient by the one step length in force, or at the input geometry with the step length halved; the step length is only ever kept or halved; at most maxIter gradient requests; the run ends early exactly when the last gradient met the convergence test and never continues past one; the returned coordinates are the last pass's. Proved by induction over the loop fuel on the hand model, which reproduces recorded request histories of the real optimiser bit for bit.",
   TB + "Modelled: the optimiser loop (corresponded on recorded histories incl. synthetic force fields). Real-arithmetic reading of the convergence measure for n>0.",
   "Lean 4 proof (induction over loop fuel, all answer histories, abstract scalar) + bit-exact request-history correspondence", "DESIGN.md §5 C05"),
+ "C06": ("proof",
+  "PARTIAL. Proved: term construction is total for any numeric layer/typing/geometry (no type name reaches todo!() in the source as translated on this run; every rest-length lookup of a bend succeeds because angles are bonded paths; every row of the compiled type table carries an element symbol), the bend energies are regular exactly off r_ij = 0, r_kj = 0, sin(theta) = 0, the cosine-harmonic coefficient divides by zero iff sin(theta0) = 0, and the 17 table rows with theta0 = pi are enumerated by kernel evaluation. The verdict itself (no abort, no NaN/inf, no overflow-scale energy for inputs with pairwise distances >= 0.5 A) is a floating-point/panic property: explored on the real code over all elements, all coordination geometries in exact symmetry (axis-aligned and rotated), linear and planar molecules and fragments, with every failure attributed to a signature; two open defects are recorded as known findings.",
+  TB + "Floating-point behaviour at singular configurations is outside the model: exploration with attribution. Known findings: collinear-bend NaN; type-B bend with theta0 = pi.",
+  "Lean 4 proof of construction totality and of the singular-set map + attributed exploration of the real code (known findings listed)", "DESIGN.md §5 C06"),
  "C07": ("proof",
   "For every finite history of energy/gradient requests at arbitrary geometries (which is what numerical-gradient and optimise requests amount to), over an arbitrary scalar and arbitrary term semantics: the answers to a further energy / gradient request are the pure functions of terms and geometry (the buffer's contents never matter, only its length, which is invariant), asking twice gives the same gradient, every answer in the history is the pure value; a variant without the zeroing step is refuted by a two-request witness. The model object (started with a dirty buffer) reproduces recorded answer sequences of real UFF/RB objects bit for bit, and each real answer is compared with a fresh object's.",
   TB + "Modelled: Forcefield::energy/gradient bodies (corresponded on histories). &[Point] immutability is a type-level fact.",
